@@ -441,6 +441,8 @@ func execParse(text []byte, wf bool, mut string) {
 		o["res"] = "panic"
 	} else if err != nil {
 		o["res"] = "error"
+	} else if _, filled := valJ(msg); !filled {
+		o["res"] = "unfilled" // accepted, but the value has a nil part (a nil filter, an event without tag list)
 	} else {
 		o["res"] = "ok"
 		o["msg"] = cmsgJ(msg)
@@ -520,9 +522,15 @@ func valJ(v any) (any, bool) {
 	case *mocrelay.ReqFilter:
 		return filterJ(x), true
 	case *mocrelay.ClientEventMsg:
-		return cmsgJ(x), x.Event != nil && x.Event.Tags != nil
+		if x.Event == nil || x.Event.Tags == nil {
+			return cmsgJ(&mocrelay.ClientCloseMsg{}), false
+		}
+		return cmsgJ(x), true
 	case *mocrelay.ClientAuthMsg:
-		return cmsgJ(x), x.Event != nil && x.Event.Tags != nil
+		if x.Event == nil || x.Event.Tags == nil {
+			return cmsgJ(&mocrelay.ClientCloseMsg{}), false
+		}
+		return cmsgJ(x), true
 	case *mocrelay.ClientReqMsg:
 		for _, f := range x.ReqFilters {
 			if f == nil {
@@ -538,7 +546,10 @@ func valJ(v any) (any, bool) {
 		}
 		return cmsgJ(x), true
 	case *mocrelay.ServerEventMsg:
-		return smsgJ(x), x.Event != nil && x.Event.Tags != nil
+		if x.Event == nil || x.Event.Tags == nil {
+			return cmsgJ(&mocrelay.ClientCloseMsg{}), false
+		}
+		return smsgJ(x), true
 	case mocrelay.ClientMsg:
 		return cmsgJ(x), true
 	case mocrelay.ServerMsg:
